@@ -136,11 +136,111 @@ NL = [(10, 10)]
 # ---------------------------------------------------------------------------------------------------
 # Python regex -> IR
 
+_CASE = {}
+
+
+def case_classes():
+    """code point -> members of its case-variant class: the equivalence classes of the SIMPLE (single character) Unicode lower/upper case
+    mappings of the running interpreter (F&O 5.6.2 'i' flag: C2 is a case-variant of C1 if their lower-case or their upper-case forms
+    are equal).  Only characters with a non-trivial class are listed."""
+    if _CASE:
+        return _CASE
+    import _sre
+    n = 0x110000
+    par = list(range(n))
+
+    def find(x):
+        while par[x] != x:
+            par[x] = par[par[x]]
+            x = par[x]
+        return x
+    for c in range(n):
+        ch = chr(c)
+        lo, up = ch.lower(), ch.upper()
+        for d in (_sre.unicode_tolower(c), ord(lo) if len(lo) == 1 else c, ord(up) if len(up) == 1 else c):
+            if d != c:
+                a, b = find(c), find(d)
+                if a != b:
+                    par[a] = b
+    groups = {}
+    for c in range(n):
+        r = find(c)
+        if r != c:
+            groups.setdefault(r, [r]).append(c)
+    for members in groups.values():
+        t = tuple(sorted(members))
+        for m in t:
+            _CASE[m] = t
+    return _CASE
+
+
+def _in_ranges(cp, rs):
+    import bisect
+    k = bisect.bisect_right(rs, (cp, 0x110000)) - 1
+    return k >= 0 and rs[k][0] <= cp <= rs[k][1]
+
+
+def case_closure(rs):
+    """the set together with all case-variants of its members"""
+    rs = norm(rs)
+    extra = []
+    for cp, members in case_classes().items():
+        if _in_ranges(cp, rs):
+            extra += [(m, m) for m in members]
+    return norm(list(rs) + extra)
+
+
+_ENGINE = {}
+_ALL = None
+
+
+def engine_set(src, flags):
+    """the set of single characters matched by the one-character Python pattern `src` under `flags`, read off the re engine itself
+    (the semantics of Python's IGNORECASE on literals and sets is part of the target language, not of the code under verification)"""
+    global _ALL
+    key = (src, flags)
+    if key not in _ENGINE:
+        if _ALL is None:
+            _ALL = ''.join(map(chr, range(0x110000)))
+        hits = re.compile(src, flags).findall(_ALL)
+        _ENGINE[key] = norm([(ord(h), ord(h)) for h in hits])
+    return _ENGINE[key]
+
+
+def _esc(cp):
+    return '\\U%08x' % cp
+
+
 def from_sre(text, flags=0):
     parsed = sre_parse.parse(text, flags)
     flags = parsed.state.flags
+    icase = [bool(flags & re.IGNORECASE)]       # scoped by (?-i:...) groups
+    eflags = re.IGNORECASE | (flags & re.DOTALL)
+
+    def set_source(op, av):
+        if op is sc.LITERAL:
+            return _esc(av)
+        if op is sc.NOT_LITERAL:
+            return '[^%s]' % _esc(av)
+        out = ['[']
+        for o, a in av:
+            if o is sc.NEGATE:
+                out.append('^')
+            elif o is sc.LITERAL:
+                out.append(_esc(a))
+            elif o is sc.RANGE:
+                out.append('%s-%s' % (_esc(a[0]), _esc(a[1])))
+            elif o is sc.CATEGORY:
+                nm = str(a).replace('CATEGORY_UNI_', 'CATEGORY_')
+                out.append({'CATEGORY_DIGIT': '\\d', 'CATEGORY_NOT_DIGIT': '\\D', 'CATEGORY_WORD': '\\w', 'CATEGORY_NOT_WORD': '\\W',
+                            'CATEGORY_SPACE': '\\s', 'CATEGORY_NOT_SPACE': '\\S'}[nm])
+            else:
+                raise NotRegular('charset item %s' % o)
+        return ''.join(out) + ']'
 
     def item(op, av):
+        if icase[0] and op in (sc.LITERAL, sc.NOT_LITERAL, sc.IN):
+            return ('set', engine_set(set_source(op, av), eflags))
         if op is sc.LITERAL:
             return ('set', [(av, av)])
         if op is sc.NOT_LITERAL:
@@ -169,11 +269,17 @@ def from_sre(text, flags=0):
             return ('set', comp(rs) if neg else rs)
         if op is sc.SUBPATTERN:
             if av[1] or av[2]:
-                f = (flags | av[1]) & ~av[2]
-                if (f ^ flags) & (re.IGNORECASE | re.DOTALL | re.MULTILINE):
-                    # (?-i:...) around a \p{..} group: only matters under IGNORECASE, which is outside the encodable fragment
-                    if flags & re.IGNORECASE:
-                        raise NotRegular('scoped flags under IGNORECASE')
+                if (av[1] | av[2]) & (re.DOTALL | re.MULTILINE):
+                    raise NotRegular('scoped s/m flags')
+                saved = icase[0]
+                if av[1] & re.IGNORECASE:
+                    icase[0] = True
+                if av[2] & re.IGNORECASE:
+                    icase[0] = False          # (?-i:...) around a \p{..} group
+                try:
+                    return seq(av[3])
+                finally:
+                    icase[0] = saved
             return seq(av[3])
         if op is sc.BRANCH:
             return ('alt', [seq(x) for x in av[1]])
@@ -202,8 +308,6 @@ def from_sre(text, flags=0):
 
     def seq(sp):
         return ('cat', [item(op, av) for op, av in sp])
-    if flags & re.IGNORECASE:
-        raise NotRegular('IGNORECASE')
     return seq(parsed)
 
 
@@ -218,7 +322,8 @@ class XsdRef:
     """pattern -> IR according to XML Schema Part 2 (appendix F) and, with xpath=True, the XPath F&O 7.6.1 extensions
     (^ $ anchors, non-capturing groups, reluctant quantifiers).  Raises Invalid / NotRegular."""
 
-    def __init__(self, pattern, xsd_version='1.0', xpath=False, dotall=False, blocks=None):
+    def __init__(self, pattern, xsd_version='1.0', xpath=False, dotall=False, blocks=None, icase=False):
+        self.icase = icase      # F&O 5.6.2 flag i: normal characters and character ranges also match their case-variants
         self.p = pattern
         self.i = 0
         self.v = xsd_version
@@ -321,7 +426,7 @@ class XsdRef:
             self.i += 1
             return ('eos',)
         self.i += 1
-        return ('set', [(ord(c), ord(c))])
+        return ('set', case_closure([(ord(c), ord(c))]) if self.icase else [(ord(c), ord(c))])
 
     def escape(self, in_class):
         """at a backslash: returns a range list"""
@@ -388,6 +493,7 @@ class XsdRef:
             neg = True
             self.i += 1
         rs = []
+        plain = []          # multi-character escapes: not affected by the i flag
         first = True
         sub = None
         while True:
@@ -440,9 +546,13 @@ class XsdRef:
                 if hi < lo:
                     raise Invalid('reversed range')
                 rs.append((lo, hi))
-            else:
+            elif single:
                 rs += st
-        rs = norm(rs)
+            else:
+                plain += st
+        if self.icase:
+            rs = case_closure(rs)
+        rs = norm(list(rs) + plain)
         if neg:
             rs = comp(rs)
         if sub is not None:
